@@ -84,7 +84,15 @@ func (v *globValidator) init(pat string) {
 	v.prec = false
 	v.scan.Init(strings.NewReader(pat))
 	v.scan.Error = func(s *scanner.Scanner, m string) {
-		v.error(fmt.Sprintf("error while scanning glob pattern %q: %s", pat, m))
+		// This callback is called on reading the invalid character as lookahead. The character is not eaten yet unlike
+		// other errors
+		p := s.Pos()
+		c := p.Column
+		if p.Line > 1 {
+			c = 0 // fallback to 0
+		}
+		msg := fmt.Sprintf("error while scanning glob pattern %q: %s", pat, m)
+		v.errs = append(v.errs, InvalidGlobPattern{msg, c})
 	}
 }
 
